@@ -1254,7 +1254,7 @@ class Corr:
 
     def __pow__(self, y):
         if isinstance(y, (Obs, int, float, CObs)):
-            newcontent = [None if _check_for_none(self, item) else item**y for item in self.content]
+            newcontent = self._apply_func_to_corr(lambda item: item**y).content
             return Corr(newcontent, prange=self.prange)
         else:
             raise TypeError('Type of exponent not supported')
